@@ -678,6 +678,8 @@ class _Run:
             out = self.block(st.orelse)
             if "break" in out_b:
                 out |= {"fall"}
+                # the else-branch runs only when the loop was not left by `break`: names it assigns are unknown afterwards
+                self._havoc(assigned_names(st.orelse) | (names - set(accs)))
         out |= (out_b - {"break", "continue", "fall"})
         return out
 
